@@ -22,9 +22,9 @@ package gpusharingconfigmap
 
 // ASSUMED contracts of the external controller-runtime client, for ConfigMap objects.
 // Get: success decodes the stored object into obj (so one exists); NotFound means there is none.
-//@ func PARKED.sigs.k8s.io/controller-runtime/pkg/client.Client.Get
+//@ func sigs.k8s.io/controller-runtime/pkg/client.Client.Get
 //@   props C11
-//@   requires obj != nil
+//@   requires obj != nil && typeis(obj, "*v1.ConfigMap")     // ConfigMap-only model: any other object type fails this precondition loudly
 //@   modifies fields(cmOf(obj))
 //@   ensures result == nil && typeis(obj, "*v1.ConfigMap") ==> cmStored(cmKey(key.Namespace, key.Name)) != nil && cmOf(obj).Name == key.Name && cmOf(obj).Namespace == key.Namespace
 //@   ensures result == nil && typeis(obj, "*v1.ConfigMap") ==> cmOf(obj).Data == nil || fresh(cmOf(obj).Data)
@@ -34,15 +34,15 @@ package gpusharingconfigmap
 // Create / Patch: success stores the content of the object that was sent, failure leaves the store alone.
 //@ func sigs.k8s.io/controller-runtime/pkg/client.Client.Create
 //@   props C11
-//@   requires obj != nil
+//@   requires obj != nil && typeis(obj, "*v1.ConfigMap")     // ConfigMap-only model: any other object type fails this precondition loudly
 //@   modifies family(cmStored(""))
 //@   ensures forall k string :: k != keyOfObj(obj) ==> cmStored(k) == old(cmStored(k))
 //@   ensures result == nil && typeis(obj, "*v1.ConfigMap") ==> cmStored(keyOfObj(obj)) == cmOf(obj)
 //@   ensures !(result == nil && typeis(obj, "*v1.ConfigMap")) ==> cmStored(keyOfObj(obj)) == old(cmStored(keyOfObj(obj)))
 //@ end
-//@ func PARKED.sigs.k8s.io/controller-runtime/pkg/client.Client.Patch
+//@ func sigs.k8s.io/controller-runtime/pkg/client.Client.Patch
 //@   props C11
-//@   requires obj != nil
+//@   requires obj != nil && typeis(obj, "*v1.ConfigMap")     // ConfigMap-only model: any other object type fails this precondition loudly
 //@   modifies family(cmStored(""))
 //@   ensures forall k string :: k != keyOfObj(obj) ==> cmStored(k) == old(cmStored(k))
 //@   ensures result == nil && typeis(obj, "*v1.ConfigMap") ==> cmStored(keyOfObj(obj)) == cmOf(obj)
